@@ -1317,3 +1317,17 @@ Example tx_slash_call :
     /\ option_map b_deposit (get (1, 12) (binds s1)) = Some 300
     /\ bal s1 Deposit = 700 /\ supply s1 = 1900.
 Proof. eexists. split; [vm_compute; reflexivity|]. vm_compute. repeat split. Qed.
+
+(* trace_counts for reachable states *)
+Theorem reach_counts cfg s r : wf_cfg cfg -> Reach cfg s ->
+  (counts r (log s) = (0, 0, 0, 0, 0, 0, 0)
+   \/ counts r (log s) = (1, 0, 0, 0, 0, 0, 0)
+   \/ counts r (log s) = (1, 1, 1, 1, 0, 0, 0)
+   \/ counts r (log s) = (1, 1, 0, 0, 1, 1, 0)
+   \/ counts r (log s) = (1, 0, 0, 0, 0, 0, 1)
+   \/ counts r (log s) = (1, 0, 0, 0, 1, 1, 1))%nat.
+Proof. intros Hcfg HR. apply (trace_counts cfg), Reach_T; assumption. Qed.
+
+(* the loop invariant of the expiry loop holds where the loop starts *)
+Theorem reach_LI cfg s : wf_cfg cfg -> Reach cfg s -> LI cfg s.
+Proof. intros Hcfg HR. apply Inv_LI; [now apply Reach_Inv|now apply Reach_T]. Qed.
